@@ -9,7 +9,7 @@ import numpy as np
 
 from harness import shell
 from harness.common import fhex, hexv, vhex, vshex
-from harness.kernels import PATTERN_ALPHABET, dense_B, kernel_input, model_value, ref_cauchy
+from harness.kernels import PATTERN_ALPHABET, dense_B, kernel_input, model_value, ref_cauchy, scaled_twin, twin_factors
 from harness.runner import run_property
 
 PROP = "C08"
@@ -83,6 +83,20 @@ def evaluate(case: Dict[str, Any]) -> Dict[str, Any]:
     with np.errstate(all="ignore"):
         xcp, c = get_cauchy_point(x.copy(), g.copy(), lb, ub, mats, 1, -1, None)
     res = check_point(inp, np.asarray(xcp, dtype=float), np.asarray(c, dtype=float))
+    if case.get("twin") is not None and not case.get("npairs_zero"):
+        # the same problem in other units (powers of two): the first local minimiser along the projected path does not depend on
+        # the units, and every intermediate quantity is the exact multiple of its counterpart
+        a, b = twin_factors(inp, case["twin"])
+        tw = scaled_twin(inp, a, b)
+        with np.errstate(all="ignore"):
+            xcp2, c2 = get_cauchy_point(tw["x"].copy(), tw["g"].copy(), tw["lb"], tw["ub"], tw["mats"], 1, -1, None)
+        sc = max(float(np.max(np.abs(xcp))), float(np.max(np.abs(x))), 1e-300)
+        err = float(np.max(np.abs(np.asarray(xcp2, dtype=float) / b - np.asarray(xcp, dtype=float)))) / sc
+        out["tags"].append("unit_twin_compared=True")
+        if not err <= 1e-9:
+            res.append({"what": "the Cauchy point depends on the units: the same problem with the objective multiplied by a power of two and the variables "
+                                "expressed in another power-of-two unit does not give the rescaled point (the first local minimiser along the projected "
+                                "path is invariant)", "key": "", "detail": {"objective_factor": a, "variable_factor": b, "rel_err": err}})
     skips = [r["skip"] for r in res if "skip" in r]
     out["prop"] = [r for r in res if "skip" not in r]
     out["tags"] += [f"tied_breakpoints={bool(case.get('tie'))}", f"all_moving_pinned_family={bool(case.get('pinned'))}", f"n={n}", f"pairs={min(inp['npairs'], 4)}", f"at_bound_outward={bool(np.any(((x == lb) & (g > 0)) | ((x == ub) & (g < 0))))}"] + [f"skip:{s}" for s in skips]
@@ -152,7 +166,7 @@ def run(tier: str, seed: int) -> int:
             for z in (True, False):
                 cases.append({"seed": seed * 1_000_003 + k, "pattern": list(pat), "npairs_zero": z})
                 k += 1
-    cases += [{"seed": seed * 1_000_003 + k + i} for i in range(nrand)]
+    cases += [{"seed": seed * 1_000_003 + k + i, "twin": (i // 2) if i % 2 == 0 else None} for i in range(nrand)]
     ntie = 3000 if tier == "quick" else 60000
     cases += [{"seed": seed * 1_000_003 + 900_000 + i, "tie": True, "n": 3 + i % 4} for i in range(ntie)]
     npin = 2000 if tier == "quick" else 30000
@@ -162,7 +176,8 @@ def run(tier: str, seed: int) -> int:
         rule=f"structural enumeration: every combination per variable of position (lb/ub/interior) x gradient sign (-/0/+) x bound kind "
              f"(both/lower/upper/none) for n <= {nmax} (exhaustive for n <= 2, sampled above), with empty and non-empty memory, plus "
              f"{nrand} random inputs n <= 10, 0..8 pairs; output compared with a brute-force first-local-minimiser over the sorted segments "
-             "with the dense matrix, pinned-on-bound and auxiliary-vector clauses, and with the Lean Float model of the routine",
+             "with the dense matrix, pinned-on-bound and auxiliary-vector clauses, and with the Lean Float model of the routine; half of the random inputs "
+             "also in other units (objective and variables rescaled by powers of two between 2^-90 and 2^40): the output must be the rescaled one",
         assumptions=["comparisons use a tolerance 1e-7·cond(B); decision ties (|q'| or |Δt - segment| relatively below 1e-7) are skipped and counted"])
 
 
